@@ -77,8 +77,20 @@ def unrat(s: str) -> Fraction:
 # --------------------------------------------------------------------------- Lean build / audit
 
 def _run(cmd, cwd=None, timeout=None, env=None):
-    p = subprocess.run(cmd, cwd=cwd, timeout=timeout, env=env, capture_output=True, text=True)
-    return p.returncode, p.stdout + p.stderr
+    """runs in its own process group so that a time-out also ends the children (lake -> lean); a time-out is reported as
+    return code 124 with the partial output, never raised"""
+    import signal
+    p = subprocess.Popen(cmd, cwd=cwd, env=env, stdout=subprocess.PIPE, stderr=subprocess.STDOUT, text=True, start_new_session=True)
+    try:
+        out, _ = p.communicate(timeout=timeout)
+        return p.returncode, out
+    except subprocess.TimeoutExpired:
+        try:
+            os.killpg(p.pid, signal.SIGKILL)
+        except ProcessLookupError:
+            pass
+        out, _ = p.communicate()
+        return 124, (out or "") + f"\n[timed out after {timeout} s]"
 
 
 class LeanLock:
@@ -98,8 +110,11 @@ def lean_env():
     return env
 
 
-def lake_build(targets, timeout=3000):
-    """returns (ok, log). Build is incremental; runs under a file lock."""
+def lake_build(targets, timeout=None):
+    """returns (ok, log). Build is incremental; runs under a file lock. A build that does not finish (e.g. tables regenerated
+    from a changed tree that the kernel cannot evaluate in time) is a broken proof obligation, not a hang."""
+    if timeout is None:
+        timeout = float(os.environ.get("VERIF_BUILD_TIMEOUT_S", 0)) or (600 if os.environ.get("VERIF_TIER", "quick") == "quick" else 2400)
     with LeanLock():
         rc, out = _run(["lake", "build", *targets], cwd=LEAN_DIR, timeout=timeout, env=lean_env())
     return rc == 0, out
@@ -221,6 +236,7 @@ class Ctx:
         self.prop, self.tier, self.seed = prop, tier, seed
         self.rng = random.Random(f"{prop}:{seed}")
         self.t0 = time.time()
+        self.t_begin = self.t0
         self.budget_s = float(os.environ.get("VERIF_BUDGET_S", 0)) or (170 if tier == "quick" else 1500)
         # proof side
         self.obligations: list[dict] = []  # {name, kind, ok, detail}
@@ -380,7 +396,7 @@ def write_evidence(ctx: Ctx, violations: int):
         "level": "proof",
         "coverage": cov,
         "assumptions": ctx.assumptions or TRUSTED_BASE[3:],
-        "wall_s": round(time.time() - ctx.t0, 2),
+        "wall_s": round(time.time() - ctx.t_begin, 2),
         "violations": violations,
     }
     (EVIDENCE / f"{ctx.prop}.json").write_text(json.dumps(ev, indent=1, default=str))
@@ -417,4 +433,6 @@ def proof_side(ctx: Ctx, theorems: list[str], extra_targets=(), modules=None):
     else:
         for t in theorems:
             ctx.obligation(f"theorem {t}", "theorem", False, "build failed")
+    # the exploration budget (correspondence + failing-input search) starts now: a slow or failed build must not eat it
+    ctx.t0 = time.time()
     return ok
